@@ -156,6 +156,15 @@ func (env *Env) eval(e ast.Expr) *Val {
 				return ce.eval(init)
 			}
 		}
+		// a named result that nothing has been assigned to yet: its zero value (kept, so that field writes stay)
+		if v, ok := o.(*types.Var); ok && env.P.isNamedResult(v) {
+			if z := zeroVal(v.Type()); z != nil {
+				if env.Vars != nil {
+					env.Vars[o] = z
+				}
+				return z
+			}
+		}
 		env.fail(e, "identifier "+x.Name)
 	case *ast.SelectorExpr:
 		// pkg.Func used as a value
@@ -1383,4 +1392,24 @@ func (f *Flat) WalkPath(env *Env) (visited []int, exit int, err error) {
 		}
 		cur = next
 	}
+}
+
+// isNamedResult: v is declared in the result list of a function of the program.
+func (p *Prog) isNamedResult(v *types.Var) bool {
+	if p.namedResults == nil {
+		p.namedResults = map[*types.Var]bool{}
+		for _, fi := range p.Funcs {
+			if fi.Decl == nil || fi.Decl.Type.Results == nil {
+				continue
+			}
+			for _, fld := range fi.Decl.Type.Results.List {
+				for _, nm := range fld.Names {
+					if o, ok := fi.Pkg.TypesInfo.Defs[nm].(*types.Var); ok {
+						p.namedResults[o] = true
+					}
+				}
+			}
+		}
+	}
+	return p.namedResults[v]
 }
